@@ -181,6 +181,9 @@ def run(ctx, R, tier):
     sib_data(F, R)
     from .c03 import commands_reach_manager
     commands_reach_manager(F, R, rule='B.C09.cmd-applied')
+    # ... and is written by the handle whatever state the handle believes the sound to be in, for both kinds of sound
+    from .c07 import write_unconditional
+    write_unconditional(F, R, rule='B.C09.cmd', floor=8, fn_filter=lambda p: ('sound::static_sound::handle' in p or 'sound::streaming::handle' in p))
     from .c18 import seek_landing
     seek_landing(F, R)
     # 'given a decoder that keeps ahead of playback': the decoder thread keeps decoding until the sound is Stopped (not
